@@ -582,6 +582,23 @@ def r3(ctx, R):
             for x in acyc + mro:
                 if mk and q.path_between(f, mk[0], x):
                     R.bad(f, x, "the space is created before the hierarchy is validated")
+    dd = ctx.func("SpaceUpdater.del_defined_space")
+    R.inst("del_defined_space: the MRO of every remaining descendant is tested on a graph without the deleted nodes, first")
+    mro_ = q.calls(dd, name="get_mro")
+    okd = False
+    for c in mro_:
+        g_ = q.origin(dd, c.func.value)
+        lp_ = enclosing_for(dd, c)
+        rm_ = [x for x in q.calls(dd, name="remove_nodes_from") if q.anorm(dd, x.func.value) == norm(c.func.value)
+               and [norm(a) for a in x.args] == ["nodes_removed"]]
+        muts = q.calls(dd, name=("del_ref", "execute"))
+        if isinstance(g_, ast.Call) and call_name(g_) == "copy" and norm(g_.func.value) == "self._graph" and lp_ is not None \
+                and rm_ and q.dominated(dd, rm_, c) and not any(q.path_between(dd, m_, c) for m_ in muts):
+            okd = True
+    if not okd:
+        R.bad(dd, dd.node, "deleting a space that is a base is not tested for the linearisation of the spaces deriving from it: "
+                           "the TypeError comes after the space was removed from its parent, the graph still holds it",
+              stmt="trial MRO before deletion")
     ns = ctx.func("SpaceUpdater.new_space")
     R.inst("new_space: a failing instruction removes the half-built space from its container and re-raises")
     tr = [t for t in q.tries(ns) if any(isinstance(c, ast.Call) and call_name(c) == "execute" for s in t.body for c in ast.walk(s))]
